@@ -367,6 +367,33 @@ Qed.
 (* unblock_recursive / unblock_transferred_queries_owned_by                                    *)
 (* ------------------------------------------------------------------------------------------ *)
 
+(* entering [unblock_recursive q]: [q]'s own entry and its dependents list are removed, the
+   dependents become pending *)
+Lemma tinv_p_open tr td q pend :
+  tinv_p tr td (q :: pend) ->
+  tinv_p (updN tr q None) (updN td q None) (lst (td q) ++ pend).
+Proof.
+  intros [G L En P ND]. constructor.
+  - eapply grounded_ext; [intros z; symmetry; apply tproj_upd|]. cbn. now apply del_grounded.
+  - intros x y l0. unfold updN. destruct (N.eqb_spec q y) as [<-|Hy]; [discriminate|].
+    intros Hl Hin. destruct (N.eqb_spec q x) as [<-|Hx].
+    + exfalso. eapply P; [now left | exact Hl | exact Hin].
+    + eauto.
+  - intros x th y. unfold updN at 1. destruct (N.eqb_spec q x) as [<-|Hx]; [discriminate|].
+    intros Hxy. destruct (En _ _ _ Hxy) as [(l0 & Hl & Hin) | [Hq | Hin]].
+    + unfold updN. destruct (N.eqb_spec q y) as [<-|Hy].
+      * right. apply in_or_app; left. now rewrite Hl.
+      * left; eauto.
+    + congruence.
+    + right. apply in_or_app; now right.
+  - intros x Hx y l0. unfold updN. destruct (N.eqb_spec q y) as [<-|Hy]; [discriminate|].
+    intros Hl Hin. apply in_app_or in Hx as [Hx|Hx].
+    + destruct (td q) as [lq|] eqn:Eq; [|destruct Hx]. cbn in Hx.
+      destruct (L _ _ _ Eq Hx) as [th1 H1]. destruct (L _ _ _ Hl Hin) as [th2 H2]. congruence.
+    + eapply P; [right; exact Hx | exact Hl | exact Hin].
+  - intros y l0. unfold updN. destruct (N.eqb_spec q y) as [<-|Hy]; [discriminate|]. apply ND.
+Qed.
+
 Lemma unblock_recursive_inv r : forall fuel g q g' pend,
   unblock_recursive fuel g q r = ROk g' ->
   einv g -> tinv_p (transferred g) (tdeps g) (q :: pend) ->
@@ -379,25 +406,7 @@ Proof.
   intros H HE HT.
   assert (HE2 : einv g2) by exact HE.
   assert (HT2 : tinv_p (transferred g2) (tdeps g2) (l ++ pend)).
-  { destruct HT as [G L En P ND]. subst g2 g1 l; cbn. constructor.
-    - eapply grounded_ext; [intros z; symmetry; apply tproj_upd|]. cbn. now apply del_grounded.
-    - intros x y l0. unfold updN. destruct (N.eqb_spec q y) as [<-|Hy]; [discriminate|].
-      intros Hl Hin. destruct (N.eqb_spec q x) as [<-|Hx].
-      + exfalso. eapply P; [now left | exact Hl | exact Hin].
-      + eauto.
-    - intros x th y. unfold updN at 1. destruct (N.eqb_spec q x) as [<-|Hx]; [discriminate|].
-      intros Hxy. destruct (En _ _ _ Hxy) as [(l0 & Hl & Hin) | [Hq | Hin]].
-      + unfold updN. destruct (N.eqb_spec q y) as [<-|Hy].
-        * right. apply in_or_app; left. now rewrite Hl.
-        * left; eauto.
-      + congruence.
-      + right. apply in_or_app; now right.
-    - intros x Hx y l0. unfold updN. destruct (N.eqb_spec q y) as [<-|Hy]; [discriminate|].
-      intros Hl Hin. apply in_app_or in Hx as [Hx|Hx].
-      + destruct (tdeps g q) as [lq|] eqn:Eq; [|destruct Hx].
-        destruct (L _ _ _ Eq Hx) as [th1 H1]. destruct (L _ _ _ Hl Hin) as [th2 H2]. congruence.
-      + eapply P; [right; exact Hx | exact Hl | exact Hin].
-    - intros y l0. unfold updN. destruct (N.eqb_spec q y) as [<-|Hy]; [discriminate|]. apply ND. }
+  { apply tinv_p_open in HT. exact HT. }
   clearbody g2 l. clear HE HT g1. revert g2 H HE2 HT2.
   induction l as [|c l IHl]; intros g2 H HE2 HT2; cbn [foldM] in H.
   - injection H as <-. auto.
